@@ -49,7 +49,7 @@ func checkC12(c *Ctx) error {
 	// Gate (by-product, never the basis of the claim): adversarially named
 	// declarations through the real CLI; generated identifiers read back from
 	// go/types scopes.
-	gatePipe, items, gerr := runGateCorpus(c, "names", corpus.FN())
+	gatePipe, items, gerr := runGateCorpus(c, "names", append(corpus.FN(), corpus.FT()...))
 	if gerr != nil {
 		return gerr
 	}
